@@ -25,6 +25,7 @@ import (
 	"os"
 	"runtime"
 	"sort"
+	"strings"
 	"sync"
 	"sync/atomic"
 	"testing"
@@ -48,7 +49,40 @@ const vaNoRespIf = "eth9" // an interface name with no responder
 const vaNoRespIfID = 9
 
 var vaV4 = []string{"10.0.0.1", "10.0.0.2", "192.168.1.20", "172.16.5.255"}
-var vaV6 = []string{"fc00::1:12:3456", "fc00::2:12:3456", "2001:db8::1"}
+// two addresses in ONE solicited-node group and one in another; the low 24 bits are drawn per
+// process so that concurrent runs on this machine join different multicast groups (the kernel's
+// membership table is observed)
+var vaV6 = func() []string {
+	x := uint32(os.Getpid())*2654435761 ^ uint32(time.Now().UnixNano())
+	a, b := x&0xffffff, (x>>4^0x5a5a5a)&0xffffff
+	if a == b {
+		b ^= 1
+	}
+	return []string{
+		fmt.Sprintf("fc00::1:%x:%x", a>>16, a&0xffff),
+		fmt.Sprintf("fc00::2:%x:%x", a>>16, a&0xffff),
+		fmt.Sprintf("2001:db8::%x:%x", b>>16, b&0xffff),
+	}
+}()
+
+// kernel view (black box): how many sockets have joined the group on the interface, from
+// /proc/net/igmp6 ("idx name group users flags timer")
+func vaKernelMembers(ifname, group string) (int, bool) {
+	b, err := os.ReadFile("/proc/net/igmp6")
+	if err != nil {
+		return 0, false
+	}
+	want := fmt.Sprintf("%x", []byte(net.ParseIP(group).To16()))
+	for _, line := range strings.Split(string(b), "\n") {
+		f := strings.Fields(line)
+		if len(f) >= 4 && f[1] == ifname && f[2] == want {
+			n := 0
+			fmt.Sscan(f[3], &n)
+			return n, true
+		}
+	}
+	return 0, true
+}
 
 const vaNever4 = "10.9.9.9"
 const vaNever6 = "fc00::9"
@@ -353,6 +387,7 @@ func vaFrame(op int, dst net.HardwareAddr, target string) []byte {
 // ---------------------------------------------------------------- the system under test
 
 type vaSUT struct {
+	realIf string // the interface the NDP sockets are bound to
 	a    *Announce
 	pcs  []*vaPC // per ARP responder
 	narp int
@@ -390,6 +425,7 @@ func vaNewSUT(narp int, nndp int) *vaSUT {
 	}
 	if os.Getenv("VERIF_NO_NDP") == "" {
 		if ifi := vaLinkLocalIf(); ifi != nil {
+			s.realIf = ifi.Name
 			for i := 0; i < nndp; i++ {
 				if err := s.a.VerifAddNDP(i, vaIfs[i], ifi); err != nil {
 					break
@@ -552,7 +588,7 @@ func vaRunHistory(out *vOut, r *rand.Rand, id, steps int, replay *vaHist) {
 		// what SetBalancer queued for the spam loop
 		queued := sut.a.VerifDrainSpam()
 		if op.Kind == "set" {
-			if len(queued) != 1 || !queued[0].ip.Equal(net.ParseIP(op.Adv.IP)) {
+			if len(queued) != 1 || !queued[0].VerifIP().Equal(net.ParseIP(op.Adv.IP)) {
 				fail("l2-spam-queue", fmt.Sprintf("SetBalancer queued %d advertisements for the spam loop, want exactly the announced one", len(queued)))
 			}
 		} else if len(queued) != 0 {
@@ -580,8 +616,14 @@ func vaRunHistory(out *vOut, r *rand.Rand, id, steps int, replay *vaHist) {
 			}
 		}
 		// reference counts
-		rcs := sut.a.VerifRefcnt()
+		rcs, rcOK := sut.a.VerifRefcnt()
+		if !rcOK {
+			out.Stat("whitebox_skipped:ipRefcnt", 1)
+		}
 		for _, ip := range allIPs {
+			if !rcOK {
+				break
+			}
 			got := rcs[net.ParseIP(ip).String()]
 			if got != w.holders(ip) {
 				fail("l2-refcnt", fmt.Sprintf("after %d ops ipRefcnt[%s] = %d, but %d services hold it", k+1, ip, got, w.holders(ip)))
@@ -600,7 +642,11 @@ func vaRunHistory(out *vOut, r *rand.Rand, id, steps int, replay *vaHist) {
 		}
 		// solicited-node group counters of the NDP responders
 		for _, nd := range sut.ndps {
-			gs := sut.a.VerifNDPGroups(nd)
+			gs, gsOK := sut.a.VerifNDPGroups(nd)
+			if !gsOK {
+				out.Stat("whitebox_skipped:solicitedNodeGroups", 1)
+				continue
+			}
 			seen := map[uint64]bool{}
 			for _, ip := range vaV6 {
 				g := vaGroupN(ip)
@@ -622,6 +668,37 @@ func vaRunHistory(out *vOut, r *rand.Rand, id, steps int, replay *vaHist) {
 					out.Stat("group_shared_by_2_addresses", 1)
 				}
 				obs = append(obs, cCtor("OGrp", cNi(nd), cN(g), cZ(int64(got))))
+			}
+		}
+		// black box: the kernel's membership of the NDP sockets in the solicited-node groups
+		if len(sut.ndps) > 0 {
+			seen := map[uint64]bool{}
+			for _, ip := range vaV6 {
+				g := vaGroupN(ip)
+				if seen[g] {
+					continue
+				}
+				seen[g] = true
+				announced := false
+				for _, ip2 := range vaV6 {
+					if vaGroupN(ip2) == g && w.holders(ip2) > 0 {
+						announced = true
+					}
+				}
+				want := 0
+				if announced {
+					want = len(sut.ndps) // one socket per responder
+				}
+				got, ok := vaKernelMembers(sut.realIf, vaGroupKey(ip))
+				if !ok {
+					out.Stat("blackbox_skipped:igmp6", 1)
+					continue
+				}
+				out.Stat("kernel_membership_checked", 1)
+				if got != want {
+					fail("l2-ndp-membership", fmt.Sprintf("after %d ops %d sockets are joined to group %s on %s (kernel), want %d: %d responders, group announced = %v", k+1, got, vaGroupKey(ip), sut.realIf, want, len(sut.ndps), announced))
+				}
+				obs = append(obs, cCtor("OMemSum", cN(g), cZ(int64(got))))
 			}
 		}
 		// unsolicited announcements: the advertisement just queued (if any), and a stale / foreign one
@@ -1010,7 +1087,13 @@ func TestVerifSpamQueue(t *testing.T) {
 	}
 
 	// schedule 2
-	b := VerifNewQueue(log.NewNopLogger(), vaIfs, 4+r.Intn(60))
+	cap2 := 4 + r.Intn(60)
+	b := VerifNewQueue(log.NewNopLogger(), vaIfs, cap2)
+	for i := 0; i < 3; i++ { // responders, so that the gratuitous sweep has clients to iterate over
+		if err := b.VerifAddARP(i, vaIfs[i], vaMACs[i], vaNewPC()); err != nil {
+			panic(err)
+		}
+	}
 	b.VerifStartSpamLoop()
 	services := 200 + r.Intn(200)
 	run := 1600 * time.Millisecond
@@ -1048,9 +1131,9 @@ func TestVerifSpamQueue(t *testing.T) {
 		if p := progress.Load() + fetched.Load(); p != last {
 			last, lastChange = p, time.Now()
 		} else if time.Since(lastChange) > 3*time.Second {
-			out.Fail("c20-deadlock-send-under-lock",
-				fmt.Sprintf("deadlock: no SetBalancer / GetStatus completed in the last 3 s (stuck after %d service events): the handler waits for the gratuitous loop while holding the lock the loop needs", progress.Load()),
-				map[string]any{"schedule": fmt.Sprintf("queue capacity %d, real spamLoop; %d services announced and re-processed in a loop for %v (more than one 1.1 s period of the loop) while GetStatus is polled", cap(b.spamCh), services, run),
+			out.Fail("c20-deadlock-announcer",
+				fmt.Sprintf("deadlock: no SetBalancer / GetStatus completed in the last 3 s (stuck after %d service events) while the real spamLoop sweeps: service handler, gratuitous loop and status fetcher wait for each other on the announcer lock / queue", progress.Load()),
+				map[string]any{"schedule": fmt.Sprintf("queue capacity %d, real spamLoop; %d services announced and re-processed in a loop for %v (more than one 1.1 s period of the loop) while GetStatus is polled", cap2, services, run),
 					"how": replay["how"]})
 			finished = true
 		}
@@ -1058,5 +1141,5 @@ func TestVerifSpamQueue(t *testing.T) {
 	stop.Store(true)
 	out.Stat("spamqueue_service_events", int(progress.Load()))
 	out.Stat("spamqueue_status_fetches", int(fetched.Load()))
-	out.Case(0, "spam-queue", "tt", map[string]any{"capacity1": capacity, "capacity2": cap(b.spamCh), "services": services, "events": progress.Load()})
+	out.Case(0, "spam-queue", "tt", map[string]any{"capacity1": capacity, "capacity2": cap2, "services": services, "events": progress.Load()})
 }
